@@ -228,3 +228,24 @@ def forall_obj(fn):
 
 def contract_input(name, default):
     return default
+
+
+def ensures_locals(name, fn, native=None):
+    """postcondition over the target's local variables: symbolic only; `native` may give an
+    equivalent clause the native harness can evaluate"""
+    if ST.phase == 'post' and native is not None:
+        _run_clause(name, native)
+
+
+def reads_all(grid, fn):
+    """(symbolic only) every cell read by the target satisfies fn; natively not observable"""
+    return True
+
+
+def stub_assume(name, fn):
+    pass
+
+
+def symbolic():
+    """True only under the symbolic verifier (for clauses about ghost traces the native run cannot observe)"""
+    return False
